@@ -122,7 +122,7 @@ def generic(prop, tier, jobs, rule, assumptions, level="exploration", recheck=0,
     # evidence must satisfy the schema minimums even for a broken run
     cov["evaluations"] = max(cov["evaluations"], 0)
     write_evidence(prop, tier, sd, level, cov, assumptions, time.time() - t0, len(violations))
-    print("%s %s: %d evaluations, %d distinct non-trivial, %.1fs" % (prop, tier, m.evals, m.distinct, time.time() - t0))
+    print("%s %s: %d evaluations, %d distinct non-trivial, %.1fs" % (prop, tier, cov["evaluations"], cov["distinct_nontrivial"], time.time() - t0))
     return conclude(prop, violations, inconclusive)
 
 
